@@ -47,8 +47,9 @@ def criteria_giles(alpha: float, ml: np.array, rmse: float) -> bool:
     :param rmse: root-mean square error
     :return: true if the convergence criteria has been met
     """
+    theta = 0.25  # same split of rmse**2 as in compute_mc_paths_giles: theta for the squared bias, 1 - theta for the variance
     rem = max(ml[-1], ml[-2] / 2**alpha, ml[-3] / 2 ** (2 * alpha)) / (2**alpha - 1)
-    return rem <= rmse / np.sqrt(2)
+    return rem <= np.sqrt(theta) * rmse
 
 
 def criteria_run_to_maximum_level(alpha: float, ml: np.array, rmse: float) -> bool:
